@@ -10,6 +10,14 @@ FOCI = [
  "a protocol-conformance 'improvement' modelled on what PostgreSQL or libpq do, applied incompletely (one path updated, its sibling not)",
  "a refactoring that merges two similar code paths (simple vs extended query, text vs binary, TLS vs plaintext, named vs unnamed, first vs later message) and loses a distinction between them",
 ]
+FOCI8 = [
+ "a micro-optimisation on a hot path: avoiding an allocation or a copy, a fast path for the common case, skipping work when 'nothing changed', batching writes or flushes",
+ "handling of a rarely used protocol feature or message field: the row limit of Execute, empty or unusual portal/statement names, Describe variants, Flush, format-code vectors, parameter type lists, NULL handling, zero-length values",
+ "a concurrency or life-cycle change: a lock narrowed or removed, a goroutine added, context propagation or cancellation changed, the order of steps during connection set-up, tear-down or shutdown changed",
+ "a new configuration option, default value or convenience API (with its plumbing) that has a side effect on existing behaviour when it is NOT used, or only when it is combined with an existing option",
+]
+if N >= 8:
+    FOCI = FOCI8
 props = [json.loads(l) for l in open('/verif/properties.jsonl')]
 earlier = {}
 for f in sorted(glob.glob('/verif/seeded/*/meta.json')):
